@@ -747,6 +747,37 @@ func (w *World) verifyCase(ct *Contract, caseIdx int) (res *FuncResult) {
 			h(f, st, ct, cases[caseIdx].name)
 		}
 	}
+	// every site named by an intermediate/site obligation must exist in the code
+	for _, ca := range ct.CallAssert {
+		n := 0
+		for _, b := range fn.Blocks {
+			for _, in := range b.Instrs {
+				if ci, ok := in.(ssa.CallInstruction); ok {
+					if _, isB := ci.Common().Value.(*ssa.Builtin); !isB && strings.Contains(calleeLabel(ci.Common()), ca.Callee) {
+						n++
+					}
+				}
+			}
+		}
+		if ca.K >= n {
+			panic(sfail("site obligation %s names call %d of %q, but the function has only %d such call(s)", ca.Cl.Name, ca.K, ca.Callee, n))
+		}
+	}
+	if len(ct.RetAssert) > 0 {
+		n := 0
+		for _, b := range fn.Blocks {
+			for _, in := range b.Instrs {
+				if _, ok := in.(*ssa.Return); ok {
+					n++
+				}
+			}
+		}
+		for k := range ct.RetAssert {
+			if k >= n {
+				panic(sfail("intermediate assertion names return %d, but the function has only %d return(s)", k, n))
+			}
+		}
+	}
 	// vacuity guard: the precondition is satisfiable
 	c.Cover("requires", TTrue, w.fset.Position(fn.Pos()))
 	rst, results := f.runBody(st)
